@@ -643,6 +643,8 @@ def check(ctx):
     for cfgname in ctx.configs(quick=('base',), thorough=('base', 'wire', 'nostd')):
         f = ctx.facts(cfgname)
         rep.cur_config = cfgname
+        from . import common as _cm
+        _cm.check_helpers(ctx, f, rep, 'C07-R0', {'choose_members'})
         tabs = tables(ctx, f, rep)
         r1_r2_sender(ctx, f, rep)
         r3_sections(ctx, f, rep, tabs)
